@@ -79,7 +79,17 @@ class Acc:
     def __init__(self, F, rec):
         self.rec = rec
         self.adt = rec["container"]["self_ty"]["def"]
-        fs = F.adts[self.adt]["variants"][0]["fields"]
+        self.F = F
+        # leaf fields, looking through plain helper structs (`span: RowSpan {..}`); rules speak about a leaf by the last
+        # component of its name, symbols carry the full dotted name
+        flat = C.flat_field_types(F, self.adt)
+        base = [n.split(".")[-1] for n, _p, _t in flat]
+        self.dotted = {}
+        fs = []
+        for (n, _p, t), b_ in zip(flat, base):
+            key = b_ if base.count(b_) == 1 else n
+            self.dotted[key] = n
+            fs.append({"name": key, "ty": t})
         self.names = [f["name"] for f in fs]
         impl = [i for i in F.raw["impls"] if i["id"] == rec["container"]["impl"]]
         item = [i.get("ty") for i in (impl[0]["items"] if impl else []) if i.get("name") == "Item"]
@@ -93,7 +103,8 @@ class Acc:
     def fields(self, ex, v):
         if isinstance(v, SymV):
             v = ex.expand_sym(v)
-        return {n: v.fields[i] for i, n in enumerate(self.names)}
+        flat = C.flat_fields(ex, self.F, self.adt, v)
+        return {k: flat[d] for k, d in self.dotted.items()}
 
     def item(self, ex, v):
         if isinstance(v, SymV):
@@ -119,12 +130,12 @@ def run_step(R, F, acc, result_facts):
     ex.result_facts = result_facts
     ex.templates = [lambda v: BOUND - v]
     ex.struct_templates = D.accumulator_templates(F)
-    assume = [BOUND - sym_int("*self.%s" % n, 16, False) for n in acc.u16]
+    assume = [BOUND - sym_int("*self.%s" % acc.dotted[n], 16, False) for n in acc.u16]
     # the accumulator invariants every reachable state satisfies (established in context by C08's loop analysis):
     # not first => start <= end in every dimension and len = product of the extents
-    fp = sym_bool("*self.%s" % acc.flag[0])
-    ln = sym_int("len(*self.%s)" % acc.vec[0], F.pointer_bits, False)
-    f_ = {n: sym_int("*self.%s" % n, 16, False) for n in acc.u16}
+    fp = sym_bool("*self.%s" % acc.dotted[acc.flag[0]])
+    ln = sym_int("len(*self.%s)" % acc.dotted[acc.vec[0]], F.pointer_bits, False)
+    f_ = {n: sym_int("*self.%s" % acc.dotted[n], 16, False) for n in acc.u16}
     if "y_top" in f_:
         area = (f_["x_right"] - f_["x_left"] + 1) * (f_["y_bottom"] - f_["y_top"] + 1)
         geo = [f_["x_right"] - f_["x_left"], f_["y_bottom"] - f_["y_top"]]
@@ -457,7 +468,7 @@ def find_block_state(ex, st, acc):
     """the value of the block accumulator among the locals of the draw_batch frame in state st"""
     cands = [v for root, v in st.mem.items() if isinstance(v, Agg) and v.kind == "adt" and v.name == acc.adt]
     # the live one is the value the loop analysis made symbolic (moved-from temporaries keep their constants)
-    live = [v for v in cands if "loop:" in repr(v.fields[acc.names.index("x_left")])]
+    live = [v for v in cands if "loop:" in repr(acc.fields(ex, v)["x_left"])]
     if len(live) == 1:
         return live[0]
     return cands[0] if len(cands) == 1 else None
